@@ -245,11 +245,13 @@ func runCase(c *Case) ([]F, map[string]interface{}) {
 			}
 			obs[fmt.Sprintf("prepare-error-text-class:%d", gqlty.PrepareErrCode(prep.Error()))] = true
 		}
-		if term, terr := gqlty.DocToCoq(doc); terr == nil && gqlty.CoqStringSafe(text) {
-			qterms = append(qterms, fmt.Sprintf("(%s, %d)", term, code))
-		}
 		// the reference verdict comes from the introspection JSON alone, not from what the generator intended
 		ill, crossSpread := isch.Analyse(doc, "Query")
+		// (with cross_args a fragment's argument-carrying selections are validated under several types: the verdict
+		// then depends on argument parsing, which is outside the model of PrepareQuery - C18)
+		if term, terr := gqlty.DocToCoq(doc); terr == nil && gqlty.CoqStringSafe(text) && !(c.CrossArgs && crossSpread) {
+			qterms = append(qterms, fmt.Sprintf("(%s, %d)", term, code))
+		}
 		if gen.Cross > 0 {
 			obs["cross-type-spread"] = true
 			if ill != "" {
